@@ -495,10 +495,13 @@ pub(crate) fn main() {
         match name {
             "c31" => vcore::workers::drive(&C31, args),
             "simlog" => vcore::workers::drive(&SimLog, args),
-            _ => {
-                eprintln!("unknown engine {name}");
-                std::process::exit(2);
-            }
+            _ => match crate::verif_http_driver::engine(name, args) {
+                Some(r) => r,
+                None => {
+                    eprintln!("unknown engine {name}");
+                    std::process::exit(2);
+                }
+            },
         }
     };
     let rep = if engine == "replay" {
